@@ -1165,11 +1165,47 @@ def _leaves(c):
     return [c]
 
 
+OPTION_KINDS = ["report>hyd-not-multiple", "report<hyd", "report-ALL", "report-multiple", "pattern!=hyd", "rule-step", "plain"]
+
+
+def vary_options(rng, net, kind=None):
+    """option sets the simulators have special code for (WNTRSimulator._setup_sim_options adjusts report / hydraulic steps
+    INTERNALLY; the definition must not notice): returns (kind, overrides) -- overrides are dotted option names applied by
+    build_model after the network is built. Quality / energy / graphics options get non-default values too: a run must
+    leave them alone."""
+    o = net["options"]
+    hyd = o["hydraulic_timestep"]
+    kind = kind or rng.choice(OPTION_KINDS)
+    over = {}
+    if kind == "report>hyd-not-multiple":
+        o["report_timestep"] = hyd + rng.choice([hyd // 2, hyd // 3, hyd // 4])      # e.g. 3600 / 5400
+    elif kind == "report<hyd":
+        o["report_timestep"] = rng.choice([hyd // 2, hyd // 3])
+    elif kind == "report-ALL":
+        o["report_timestep"] = "ALL"
+    elif kind == "report-multiple":
+        o["report_timestep"] = hyd * rng.choice([2, 3])
+    elif kind == "pattern!=hyd":
+        o["pattern_timestep"] = rng.choice([hyd // 2, hyd + hyd // 2, 2 * hyd, hyd // 3])
+    elif kind == "rule-step":
+        over["time.rule_timestep"] = rng.choice([hyd // 10, hyd // 4, hyd // 3, hyd, 2 * hyd, hyd + 60])
+    if rng.random() < 0.5:
+        over["time.quality_timestep"] = rng.choice([60, 300, hyd // 4])
+        over["energy.global_price"] = rng.choice([0.0, 0.12])
+        over["energy.global_efficiency"] = rng.choice([75.0, 62.5])
+        over["quality.tolerance"] = rng.choice([0.01, 0.02])
+        over["hydraulic.specific_gravity"] = 1.0
+        over["report.status"] = rng.choice(["NO", "YES"])
+    return kind, over
+
+
 def gen_spec(rng, quick=True, wide=False, p_speed=0.12):
     n = rng.randint(4, 10) if not wide else rng.randint(3, 16)
     net = G.random_network(rng, quick=True, force={"n_nodes": n})
     net["options"]["trials"] = 40
-    return {"net": net, "controls": gen_controls(rng, net, p_speed=p_speed)}
+    controls = gen_controls(rng, net, p_speed=p_speed)
+    kind, over = vary_options(rng, net)
+    return {"net": net, "controls": controls, "opt_kind": kind, "opt_overrides": over}
 
 
 def _small_net(hyd=3600, steps=4, valve=None, valve_status="ACTIVE", pump="POWER", pdd=False, tank=True):
@@ -1244,6 +1280,13 @@ def scenario_specs(rng):
            {"kind": "rule", "cond": {"t": "simtime", "op": ">=", "thr": 3 * hyd}, "then": [{"link": "V1", "attr": "setting", "value": 60.0}],
             "else": [], "priority": 2, "name": "late"}]
     out.append(("pump-tank-level", {"net": net, "controls": ctr}))
+    # option sets the simulators adjust internally: report step larger than / smaller than / not a multiple of the hydraulic step,
+    # 'ALL', pattern step != hydraulic step, rule step variants (one directed model of each kind per run)
+    for kind in OPTION_KINDS[:-1]:
+        net = _small_net(pump=rng.choice(["POWER", "HEAD"]), valve=rng.choice([None, "TCV"]), steps=3)
+        k, over = vary_options(rng, net, kind)
+        ctr = [{"kind": "time", "time": hyd, "action": {"link": "P5", "attr": "status", "value": 0}}]
+        out.append(("options:" + kind, {"net": net, "controls": ctr, "opt_kind": k, "opt_overrides": over}))
     return out
 
 
@@ -1260,6 +1303,9 @@ def build_model(wntr, spec, fresh=True):
         wn = G.build_wn(wntr, spec["net"])
     finally:
         WN.reset_initial_values = orig
+    for name, v in sorted((spec.get("opt_overrides") or {}).items()):
+        sec, k = name.split(".", 1)
+        setattr(getattr(wn.options, sec), k, v)
     ctl = wntr.network.controls
     LS = wntr.network.LinkStatus
 
@@ -1301,6 +1347,10 @@ def spec_features(spec):
     f = set()
     net = spec["net"]
     f.add(net["options"]["demand_model"])
+    if spec.get("opt_kind") and spec["opt_kind"] != "plain":
+        f.add("opt:" + spec["opt_kind"])
+    if spec.get("opt_overrides"):
+        f.add("opt:overrides")
     for l in net["links"]:
         f.add(l["type"] + (":" + (l.get("pump_type") or l.get("valve_type") or "") if l["type"] != "pipe" else ""))
         if l["type"] == "valve" and l.get("initial_status", "ACTIVE") != "ACTIVE":
